@@ -178,6 +178,50 @@ def cases_exec_steps(rng):
         for x in (pfh.new_pfh_pass(), pfh.new_pfh_fail('m'), pfh.new_pfh_hard_error('m'))]
 
 
+def cases_files_depth(rng):
+    m = importlib.import_module('exactly_lib.impls.types.files_matcher.models')
+    p = 'py_models__FilesGeneratorForRecursive_'
+    out = []
+    for _ in range(60):
+        g = m._FilesGeneratorForRecursive(rng.choice([None, 0, 1, 2, 3]), rng.choice([None, 0, 1, 2, 3]))
+        d = rng.randint(0, 4)
+        out.append((p + '_is_within_min_depth_limit', [g, d], lambda g, d: g._is_within_min_depth_limit(d), []))
+        out.append((p + '_is_at_max_depth_limit', [g, d], lambda g, d: g._is_at_max_depth_limit(d), []))
+        out.append((p + '_is_within_max_depth_limit', [g, d], lambda g, d: g._is_within_max_depth_limit(d), []))
+    return out
+
+
+def cases_settings(rng):
+    st = importlib.import_module('exactly_lib.test_case.phases.instruction_settings')
+    sb = importlib.import_module('exactly_lib.test_case.phases.setup.settings_builder')
+    im = importlib.import_module(py2coq._EN + 'impl')
+
+    def setter(name):
+        def f(s, x):
+            getattr(s, name)(x)
+            return s
+        return f
+    out = []
+    for t0 in (None, 0, 7):
+        for t1 in (None, 0, 60):
+            out.append(('py_instruction_settings_InstructionSettings_set_timeout', [st.InstructionSettings(None, 'getter', t0), t1], setter('set_timeout'), []))
+            out.append(('py_instruction_settings_InstructionSettings_set_environ', [st.InstructionSettings(None, 'getter', t0), t1], setter('set_environ'), []))
+            out.append(('py_instruction_settings_InstructionSettings_timeout_in_seconds', [st.InstructionSettings(t1, 'getter', t0)], lambda s: s.timeout_in_seconds(), []))
+    for phases in (frozenset([im.Phase.ACT]), frozenset([im.Phase.NON_ACT]), frozenset(im.Phase)):
+        for sps in (None, sb.SetupSettingsBuilder(None, None)):
+            out.append(('(fun e s c p => py_impl_TheInstructionEmbryo__resolve_applier e (py_impl_TheInstructionEmbryo__resolve_applier_factory s c p))',
+                        [im.TheInstructionEmbryo(phases, None), st.InstructionSettings(None, 'getter', 3), 'ctor', sps],
+                        lambda e, s, c, p: e._resolve_applier(im.TheInstructionEmbryo._resolve_applier_factory(s, c, p)), []))
+    return out
+
+
+def cases_act_source(rng):
+    m = importlib.import_module('exactly_lib.processing.parse.act_phase_source_parser')
+    alphabet = ['\\\\', '[', ']', ' ', 'a', 'b']
+    return [('py_act_phase_source_parser__un_escape_at_beginning_of_line', [''.join(rng.choice(alphabet) for _ in range(rng.below(5)))],
+             m._un_escape_at_beginning_of_line, []) for _ in range(80)]
+
+
 def main():
     wd = os.path.join(common.WORK, 'py2coq_selftest')
     shutil.rmtree(wd, ignore_errors=True)
@@ -186,7 +230,8 @@ def main():
     rng = common.Rng(int(os.environ.get('VERIF_SEED', '20260926')))
     rc = 0
     for target, gen in (('LineNums', cases_line_nums), ('Interval', cases_interval), ('Outcome', cases_outcome),
-                        ('ProgVerdict', cases_prog_verdict), ('Relativity', cases_relativity), ('ExecSteps', cases_exec_steps)):
+                        ('ProgVerdict', cases_prog_verdict), ('Relativity', cases_relativity), ('ExecSteps', cases_exec_steps),
+                        ('FilesDepth', cases_files_depth), ('Settings', cases_settings), ('ActSource', cases_act_source)):
         b = common.coq_build(targets=['Gen/Src_%s.vo' % target])
         if not b.ok:
             print(target, 'Gen does not compile', b.broken[:2])
